@@ -119,6 +119,14 @@ class InterpolatingOpacity(Opacity):
         if check_pressure_min and check_temperature_min:
             return np.zeros_like(self.xsecGrid[0, 0, wngrid_filter]).ravel()
 
+        if check_pressure_max and check_temperature_min:
+            self.debug('Max pressure, below min temperature. Using corner')
+            return self.xsecGrid[-1, 0, wngrid_filter].ravel()
+
+        if check_pressure_min and check_temperature_max:
+            self.debug('Max temperature, below min pressure. Using corner')
+            return self.xsecGrid[0, -1, wngrid_filter].ravel()
+
         # Max pressure
         if check_pressure_max:
             self.debug('Max pressure reached. Interpolating temperature only')
